@@ -281,7 +281,7 @@ func checkProp(p *Prop, tier, onlyRun string, keepLogs, trace, validate bool) in
 				c.KnownIDs[id] = true
 			}
 		}
-		if tier == "thorough" && len(c.Cross) == 0 && !c.NoCross {
+		if tier == "thorough" && len(c.Cross) == 0 && !c.NoCross && c.BV {
 			c.Cross = []string{"z3"}
 		}
 		sel = append(sel, c)
